@@ -549,8 +549,13 @@ fn c11_twin_must_fail() {
 
 fn utf8_equiv<const L: usize>() {
     let b: [u8; L] = kani::any();
-    let real = core::str::from_utf8(&b).is_ok();
+    let real_r = core::str::from_utf8(&b);
+    let real = real_r.is_ok();
     assert!(real == utf8_model_ok(&b), "UTF-8 model differs from core::str::from_utf8");
+    if let (Err(r), Err(m)) = (real_r, crate::common::utf8_validation_stub(&b)) {
+        assert!(r.valid_up_to() == m.valid_up_to() && r.error_len() == m.error_len(), "UTF-8 model reports a different error position / kind than core");
+        kani::cover!(r.error_len().is_none(), "input ends inside a sequence");
+    }
     kani::cover!(real && b[0] >= 0x80, "multi-byte sequence accepted");
     kani::cover!(!real, "rejected");
 }
@@ -558,7 +563,7 @@ fn utf8_equiv<const L: usize>() {
 // @h props=C11,C04 tier=quick t=900 sub=utf8-model
 // @fn (trusted-base check) core::str::from_utf8 vs the byte-wise model used as its stub
 // @bound every byte string of length exactly 2
-// @oracle the real validator and the Table 3-7 model accept the same strings
+// @oracle the real validator and the Table 3-7 model accept the same strings and report the same Utf8Error (valid_up_to, error_len) for the others
 #[kani::proof]
 #[kani::unwind(8)]
 fn c11_utf8_model_equiv_2() {
